@@ -14,6 +14,7 @@ import (
 	"strings"
 	"syscall"
 	"time"
+	"unicode/utf8"
 
 	"github.com/pkg/errors"
 	"github.com/tonistiigi/fsutil"
@@ -74,7 +75,9 @@ func c18Follow(fs fsutil.FS, reqs []string) Sx {
 		}()
 		res, err := fsutil.FollowLinks(fs, reqs)
 		if err != nil {
-			if os.Getenv("C18_DEBUG") != "" { fmt.Fprintf(os.Stderr, "ERR: %+v\n", err) }
+			if os.Getenv("C18_DEBUG") != "" {
+				fmt.Fprintf(os.Stderr, "ERR: %+v\n", err)
+			}
 			done <- L(N(1), S(errClass18(err)))
 			return
 		}
@@ -184,7 +187,9 @@ func run1805(in Sx) (out Sx) {
 			done <- L(N(1), S("walk"))
 			return
 		}
-		done <- L(N(0), L(paths...))
+		// what FollowLinks itself answers for the same requests (the include set that was merged)
+		fl := c18Follow(&c18FS{m: &MemFS{Roots: roots}}, reqs)
+		done <- L(N(0), L(paths...), fl)
 	}()
 	select {
 	case v := <-done:
@@ -203,7 +208,41 @@ type c18Entry struct {
 	isLnk bool
 }
 
-var c18Names = []string{"a", "b", "c", "d", "e", "f", "l", "m", "self", "a!", "a*", "ab", "é", "x y", "a-b", "a.b", "日本", "\x80", "[a]", "a?"}
+var c18Names = []string{"a", "b", "c", "d", "e", "f", "l", "m", "self", "a!", "a*", "ab", "é", "x y", "a-b", "a.b", "日本", "\x80", "[a]", "a?", "!x", " x", "a\\b"}
+
+// c18DotNames: names that BEGIN with dots but are not the special "." / "..": one, two or three
+// dots alone or followed by bytes below '/' ('!', '-', ' '), above it (digits, letters, '~', a
+// non-ASCII byte) and by further dots.  Lexical normalisation must treat them as ordinary names
+// at the root and deeper, in requests and in link targets.
+var c18DotNames = func() []string {
+	var out []string
+	for _, pre := range []string{".", "..", "..."} {
+		for _, suf := range []string{"", "a", "d", "-", "!", " b", "0", "~", "\xc3\xa9", ".a", "a.", "l"} {
+			n := pre + suf
+			if n == "." || n == ".." {
+				continue
+			}
+			out = append(out, n)
+		}
+	}
+	return out
+}()
+
+// c18Pool: the name pool of a case. dots: about half of the picks are dot-prefixed names.
+func c18Pool(r *Rng, rich, dots bool) []string {
+	names := c18Names[:9]
+	if rich {
+		names = c18Names
+	}
+	if !dots {
+		return names
+	}
+	out := append([]string{}, names[:5]...)
+	for i := 0; i < 5; i++ {
+		out = append(out, Pick(r, c18DotNames))
+	}
+	return out
+}
 
 func c18Rel(fromDir, to string) string {
 	// lexical relative path from directory fromDir to to (both relative to the root, "" = root)
@@ -238,7 +277,7 @@ func c18Parent(p string) string {
 }
 
 // c18GenView: small trees whose links point at things that exist.
-func c18GenView(r *Rng, rich, clean bool) ([]*MNode, []c18Entry) {
+func c18GenView(r *Rng, names []string, clean bool) ([]*MNode, []c18Entry) {
 	root := &MNode{Name: "", Stat: &types.Stat{Mode: uint32(os.ModeDir | 0755)}}
 	type dref struct {
 		n     *MNode
@@ -247,10 +286,6 @@ func c18GenView(r *Rng, rich, clean bool) ([]*MNode, []c18Entry) {
 	}
 	dirs := []dref{{root, "", 0}}
 	var ents []c18Entry
-	names := c18Names[:9]
-	if rich {
-		names = c18Names
-	}
 	n := 2 + r.Intn(9)
 	for i := 0; i < n; i++ {
 		d := Pick(r, dirs)
@@ -341,11 +376,7 @@ func c18GenView(r *Rng, rich, clean bool) ([]*MNode, []c18Entry) {
 	return root.Kids, ents
 }
 
-func c18GenReqs(r *Rng, ents []c18Entry, rich, clean bool) ([]string, string) {
-	names := c18Names[:9]
-	if rich {
-		names = c18Names
-	}
+func c18GenReqs(r *Rng, ents []c18Entry, names []string, clean bool) ([]string, string) {
 	var all, links []string
 	for _, e := range ents {
 		all = append(all, e.path)
@@ -358,6 +389,22 @@ func c18GenReqs(r *Rng, ents []c18Entry, rich, clean bool) ([]string, string) {
 	}
 	if len(links) == 0 {
 		links = all
+	}
+	// paths with at least two components: real ones, and real ones reached through a link to
+	// one of their ancestors (l -> d gives l/x for d/x)
+	var deep []string
+	for _, e := range ents {
+		if strings.Contains(e.path, "/") {
+			deep = append(deep, e.path)
+			for _, l := range ents {
+				if l.isLnk && strings.HasPrefix(e.path, strings.TrimPrefix(l.node.Stat.Linkname, "/")+"/") && !strings.Contains(l.path, "/") {
+					deep = append(deep, l.path+strings.TrimPrefix(e.path, strings.TrimPrefix(l.node.Stat.Linkname, "/")))
+				}
+			}
+		}
+	}
+	if len(deep) == 0 {
+		deep = all
 	}
 	n := 1 + r.Intn(3)
 	if r.Chance(4) {
@@ -403,10 +450,15 @@ func c18GenReqs(r *Rng, ents []c18Entry, rich, clean bool) ([]string, string) {
 		case k < 95: // wildcard in a middle component
 			w := Pick(r, []string{"*", "?", "a*", "[d-f]"})
 			q, c = w+"/"+Pick(r, names), "wild-mid"
-			if r.Chance(50) { // aim at an existing entry: replace one middle component by a wildcard
-				parts := strings.Split(Pick(r, all), "/")
+			if r.Chance(60) { // aim at an existing entry: replace one middle component by a wildcard
+				// that the real name matches (any pattern, or one derived from the name itself)
+				parts := strings.Split(Pick(r, deep), "/")
 				if len(parts) >= 2 {
-					parts[r.Intn(len(parts)-1)] = w
+					j := r.Intn(len(parts) - 1)
+					if r.Bool() {
+						w = c18PatternFor(r, parts[j])
+					}
+					parts[j] = w
 					q = strings.Join(parts, "/")
 				}
 			} else if r.Chance(40) {
@@ -426,6 +478,27 @@ func c18GenReqs(r *Rng, ents []c18Entry, rich, clean bool) ([]string, string) {
 		cls = "none"
 	}
 	return reqs, cls
+}
+
+// c18PatternFor: a glob pattern without escapes that matches the given name: its first byte
+// kept and the rest replaced by '*', every byte replaced by '?', or a class around the first byte.
+func c18PatternFor(r *Rng, name string) string {
+	if name == "" || strings.ContainsAny(name, "*?[\\") || name[0] >= 0x80 {
+		return "*"
+	}
+	switch r.Intn(3) {
+	case 0:
+		return name[:1] + "*"
+	case 1:
+		if utf8.ValidString(name) {
+			return strings.Repeat("?", utf8.RuneCountInString(name))
+		}
+		return "*"
+	}
+	if c := name[0]; (c >= 'a' && c <= 'z') || (c >= '0' && c <= '9') {
+		return "[" + name[:1] + "]*"
+	}
+	return name[:1] + "*"
 }
 
 func c18Input(roots []*MNode, reqs []string) Sx {
@@ -481,10 +554,15 @@ func genC18(g *Gen) {
 	for i := 0; i < nA; i++ {
 		rich := i%3 == 2
 		clean := i%5 < 2
-		roots, ents := c18GenView(r, rich, clean)
-		reqs, cls := c18GenReqs(r, ents, rich, clean)
+		dots := i%4 == 3
+		names := c18Pool(r, rich, dots)
+		roots, ents := c18GenView(r, names, clean)
+		reqs, cls := c18GenReqs(r, ents, names, clean)
 		if clean {
 			cls = "clean-" + cls
+		}
+		if dots {
+			cls = "dots-" + cls
 		}
 		in := c18Input(roots, reqs)
 		out := run1801(in)
@@ -502,7 +580,7 @@ func genC18(g *Gen) {
 			g.Emit(0x1804, in, nontriv, "disk/"+oc)
 		}
 		// (c) end to end through NewFilterFS (a sample)
-		if i%4 == 1 {
+		if i%4 == 1 || strings.HasSuffix(cls, "wild-mid") {
 			g.Emit(0x1805, in, nontriv, "filter/"+oc)
 		}
 	}
